@@ -94,11 +94,12 @@ def check(prop, tier, threads, mc_cfg, gen_cfg, split, maxlen, walks, walk_len, 
             # mechanisms of the pinned commit, which TLC must reject (non-vacuity of ImplServes)
             r = tlc.require_clean(tlc.run_tlc("MC_RuntimeImpl", "MC_RuntimeImpl_ok.cfg", workers=NPROC, scratch=sc), "RuntimeImpl")
             impl_states = r.distinct
-            for v in ("nofallback", "objprev", "noneslot"):
+            for v, inv in (("nofallback", "ImplServes"), ("objprev", "ImplServes"), ("noneslot", "ImplServes"),
+                           ("callintry", "ImplServesX")):
                 rv = tlc.run_tlc("MC_RuntimeImpl", "MC_RuntimeImpl_%s.cfg" % v, workers=NPROC, scratch=sc)
-                if not (rv.violation and "ImplServes" in rv.violation):
-                    raise MachineryError("vacuity guard: the pinned mechanism '%s' was not rejected by ImplServes" % v)
-                rejected_designs[v] = "ImplServes"
+                if not (rv.violation and inv in rv.violation):
+                    raise MachineryError("vacuity guard: the broken mechanism '%s' was not rejected by %s" % (v, inv))
+                rejected_designs[v] = inv
         g = graph.Graph()
         gen = tlc.require_clean(
             tlc.run_tlc(module, gen_cfg, workers=1, scratch=sc, collect="EDGE ",
